@@ -49,7 +49,7 @@ PROPS = {
              gentable=('const_max_pct_gt1', 'const_max_pct_gt2', 'const_max_milestones', 'const_max_round_diff')),
     'C14': P('NFT draw without replacement, fee paid once and exactly, SFT kinds, fees reconcile',
              eps=('confirmNft', 'extra', 'claim', 'claimPayment', 'setNftCost', 'blacklist'), cats=('status', 'bal', 'ret'),
-             rng=True, views=('confirmedNft', 'wonNft', 'nftCost'), coq=('Proofs/Nft.v', 'Proofs/NftLedger.v', 'Proofs/SetupNft.v', 'Proofs/SetupNgt.v'),
+             rng=True, views=('confirmedNft', 'wonNft', 'nftCost'), coq=('Proofs/Nft.v', 'Proofs/NftLedger.v', 'Proofs/SetupNft.v', 'Proofs/SetupNgt.v', 'Proofs/NftPipeline.v'),
              gentable=('const_nft_amount', 'const_vec_start_nft')),
     'C15': P('caller conditions of every endpoint: regenerated attribute table + dispatch lemmas',
              eps=None, cats=('status',), coq=('Proofs/Permissions.v', 'Proofs/GenTable.v'),
